@@ -584,6 +584,41 @@ func runC18(c *run.Ctx) {
 			})
 		}
 	}
+	// values that agree for d levels of nesting and differ (or not) at the leaf
+	for di, d := range []int{4, 8, 15, 16, 17, 24, 31, 32, 33, 34, 40, 47, 48, 49, 50, 63, 64, 65, 80} {
+		if !c.Mine(di) {
+			continue
+		}
+		d := d
+		c.Case(fmt.Sprintf("deep/%d", d), func() {
+			for style := 0; style < 3; style++ {
+				mk := func(leaf *ref.V, flip bool) *ref.V {
+					v := leaf
+					for k := 0; k < d; k++ {
+						switch (k * (style + 1)) % 3 {
+						case 0:
+							v = ref.VList(v.T, v)
+						case 1:
+							v = ref.VMap(ref.TStr, v.T, ref.KV{K: ref.VStr("k"), V: v})
+						default:
+							t := ref.TObj(ref.F("f", v.T), ref.F("n", ref.TNum))
+							if flip { // the same object laid out the other way round
+								v = ref.VObj(ref.TObj(ref.F("n", ref.TNum), ref.F("f", v.T)), ref.VNum(1), v)
+							} else {
+								v = ref.VObj(t, v, ref.VNum(1))
+							}
+						}
+					}
+					return v
+				}
+				a, same, relaid, other := mk(ref.VNum(1), false), mk(ref.VNum(1), false), mk(ref.VNum(1), true), mk(ref.VNum(2), false)
+				checkSameness(c, a, same, fmt.Sprintf("equal values %d levels deep", d), true)
+				checkSameness(c, a, relaid, fmt.Sprintf("equal values %d levels deep, objects laid out differently", d), true)
+				checkSameness(c, a, other, fmt.Sprintf("values %d levels deep that differ at the leaf", d), true)
+			}
+			c.Distinct(fmt.Sprintf("deep/%d", d))
+		})
+	}
 	// values updated in place through the val API after they were rendered once
 	for i := 0; i < c.Pick(300, 20000); i++ {
 		if !c.Mine(i) {
@@ -726,7 +761,7 @@ func init() {
 	run.Register(&run.Spec{
 		ID: "C18", Run: runC18, Level: "exploration",
 		Rule: "pairs (a,b) of values of equal type (random types to depth 2: numbers across 2^53 / 2^62 / 2^63 / 2^64 / 1e19 / 1e20 / 1e300 / ±Inf whose pairwise differences are 0 or far above 1e-9, strings needing escapes or looking like renderings, times incl. sub-second, lists, maps, objects, optionals): identical, re-laid-out (permuted object fields, reversed map insertion order, at every depth) or with one leaf changed; all pairs of the number pool and of the string pool; a physically shared sub-value; bound as host data (raw environments with the value's own layout) and, whenever the values have a literal form, written as literals; " +
-			"monitor: [a]==[b] vs [b]==[a] vs != vs [a]==[a]; == <=> equal Val.String() <=> len(union)=1, len(intersect)=1, len(diff)=0 <=> (primitives) isset([a:0],b) and len([a:0,b:1])=1; the same membership questions with a appended to 3..200 other distinct elements (sizes around 64 and 128); both renderers equal the reference renderers; values kept by the host, rendered / used in set functions, updated in place below the top level through the val API (ListVal.Set, ObjVal.Put, MapVal.Put) and used again must follow their current content. distinct = distinct (a,b,layout)",
+			"monitor: [a]==[b] vs [b]==[a] vs != vs [a]==[a]; == <=> equal Val.String() <=> len(union)=1, len(intersect)=1, len(diff)=0 <=> (primitives) isset([a:0],b) and len([a:0,b:1])=1; values nested 4..80 levels deep that differ only at the leaf or only in object layout; the same membership questions with a appended to 3..200 other distinct elements (sizes around 64 and 128); both renderers equal the reference renderers; values kept by the host, rendered / used in set functions, updated in place below the top level through the val API (ListVal.Set, ObjVal.Put, MapVal.Put) and used again must follow their current content. distinct = distinct (a,b,layout)",
 		Assume:    []string{"precondition of the property is built into the pools (no two numbers closer than the tolerance unless identical)", "NaN and equal instants in different time.Location are recorded known findings"},
 		MinEvents: 3000, EventKey: "pairs_checked",
 	})
